@@ -99,6 +99,10 @@ def base_calls(cn):
         add("trinterp", "C11 C01", lambda T: b.trinterp(None, T, 0.3))
         add("trinterp/start", "C11 C01", lambda T: b.trinterp(T, refs.rt(refs.rodrigues([0.3, -0.5, 0.8], 0.7), [0.5, 1.5, -2.0]), 0.25))
         add("tr2delta", "C13", lambda T: b.tr2delta(T))
+        # two-pose forms with the OTHER pose a general float matrix (element types of the two operands differ)
+        add("tr2delta(T,F)", "C13", lambda T: b.tr2delta(T, refs.rt(refs.rodrigues([0.3, -0.5, 0.8], 0.01), np.array([1.001, 2.002, 2.999]))))
+        add("tr2delta(F,T)", "C13", lambda T: b.tr2delta(refs.rt(refs.rodrigues([0.3, -0.5, 0.8], 0.01), np.array([1.001, 2.002, 2.999])), T))
+        add("trinterp(T,F)", "C11 C01", lambda T: b.trinterp(T, refs.rt(refs.rodrigues([0.3, -0.5, 0.8], 0.7), [0.5, 1.5, -2.0]), 0.25))
         add("tr2jac", "C13", lambda T: b.tr2jac(T))
         add("adjoint", "C13", lambda T: b.adjoint(T))
         add("tr2rpy", "C05", lambda T: b.tr2rpy(T))
@@ -153,7 +157,7 @@ def strategy(pid):
         "kind": st.just("variant"), "what": st.sampled_from(KINDS), "cls": st.sampled_from(classes),
         "k": st.lists(st.integers(0, 14), min_size=3, max_size=3), "t": st.lists(st.integers(-9, 9), min_size=9, max_size=9),
         "us": st.lists(probes.U6, min_size=5, max_size=5), "p": probes.U6, "aux": st.lists(probes.U6, min_size=3, max_size=3),
-        "n": st.sampled_from([70, 300])})
+        "n": st.sampled_from([6, 70, 300, 1200])})
 
 
 def cells(pid):
@@ -162,7 +166,7 @@ def cells(pid):
     for cn in CLASSES_BY_PROP[pid]:
         for what in KINDS:
             for kk in ([1, 7, 13], [4, 2, 10], [6, 3, 9], [0, 14, 5], [8, 11, 12]) if what.startswith("inttype") else ([1, 7, 13],):
-                for n in ((70, 300) if what == "long" else (70,)):
+                for n in ((6, 70, 300, 1200) if what == "long" else (70,)):
                     yield {"kind": "variant", "what": what, "cls": cn, "k": kk, "t": [1, 2, 3, -4, 5, 0, 7, -2, 6], "us": us, "p": [0.25, -0.4, 0.6, 0.5, 0.3, -0.7],
                            "aux": aux, "n": n}
 
@@ -234,9 +238,20 @@ def check(c, case, pid):
         vals = [probes.value(cn, u) for u in case["us"]]
         X = _mk(cn, [vals[i % 5] for i in range(n)])
         singles = [_mk(cn, [v]) for v in vals]
+        # the object holds the values it was given, in order (indexing and iteration)
+        try:
+            held = [np.asarray(x.data[0] if hasattr(x, "data") else x, dtype=float) for x in X]
+            for i in (0, 1, 5, n // 2, n - 1):
+                if i < n and not probes.same(held[i], np.asarray(vals[i % 5], dtype=float), 1e-12 if cn != "UnitQuaternion" else 1e-9):
+                    c.fail("ctor/long", "%s built from %d values: value %d is not the one given" % (cn, n, i), n=n, index=i)
+                    break
+            if len(held) != n:
+                c.fail("ctor/long", "%s built from %d values iterates over %d" % (cn, n, len(held)), n=n)
+        except Exception as e:  # noqa
+            c.fail("ctor/long", "iterating over a %s of %d values raised %r" % (cn, n, e), n=n)
         for name, tags, f in cat:
-            if name in ("prod", "X*Pm", "X*Pm'", "A", "S", "interp(P,s)"):
-                continue
+            if name in ("prod", "X*Pm", "X*Pm'", "A", "S", "interp(P,s)", "I*a", "I*v", "SE3*X", "cross(vel)", "cross(force)"):
+                continue              # single-valued by documentation (inertia / pose times ONE spatial vector, cross of ONE pair)
             oX, _ = probes.outcome(f, X, P, aux)
             o5, _ = probes.outcome(f, _mk(cn, vals), P, aux)
             if oX[0] != o5[0]:
@@ -244,7 +259,7 @@ def check(c, case, pid):
                 continue
             if oX[0] != "ok":
                 continue
-            for i in (0, 1, 4, 63, 64, 69, 255, 256, 257, n - 1):
+            for i in (0, 1, 4, 5, 63, 64, 69, 255, 256, 257, 999, 1000, n - 1):
                 if i >= n:
                     continue
                 e = elem_of(oX[1], i, n)
@@ -268,7 +283,7 @@ def check(c, case, pid):
                 if oL[0] != "ok":
                     c.fail("%s/long" % on, "%s %s on two %d-valued objects raised %s" % (cn, on, n, oL[1]), call=on, n=n)
                     continue
-                for i in (0, 3, 64, 256, n - 1):
+                for i in (0, 3, 5, 64, 256, 1000, n - 1):
                     if i >= n:
                         continue
                     o1, _ = probes.outcome(g, singles[i % 5], singles[(i + 2) % 5])
